@@ -129,7 +129,9 @@ def rtdc_copy(src_h5file: h5py.Group,
                               dst_h5file=dst_h5file,
                               features_iter=feature_iter)
 
-    if feature_iter:
+    if feature_iter or (features == "all" and "events" in src_h5file):
+        # (an empty "events" group of the source file is copied as well,
+        # dclab cannot open files without it)
         dst_h5file.require_group("events")
         for feat in feature_iter:
             if not feature_exists(feat):
